@@ -700,7 +700,7 @@ func c05liveness(c *Ctx, pf map[*ssa.Function]int) {
 			if len(r.Results) == 0 {
 				continue
 			}
-			last := r.Results[len(r.Results)-1]
+			last := engine.LastResult(r)
 			if !engine.IsNilConst(last) {
 				// returning the flush's own error (return flush(...)) or another error
 				continue
@@ -767,7 +767,7 @@ func c05liveness(c *Ctx, pf map[*ssa.Function]int) {
 	if bi := c.fn("R05.4", "internal/state.(*State).beginIdle"); bi != nil {
 		fi := flushInstrs(bi, 0)
 		for _, r := range engine.Returns(bi) {
-			if len(r.Results) == 2 && engine.IsNilConst(r.Results[1]) {
+			if len(r.Results) == 2 && engine.IsNilConst(engine.ResultOf(r, 1)) {
 				R.Check(!engine.ReachesAvoiding(bi, r, fi, nil), "R05.4", c.name(bi)+"|success-return", P.Pos(r.Pos()),
 					"IDLE starts by flushing with permitExpunge=true", "beginIdle can succeed without flushing pending expunges")
 			}
